@@ -106,6 +106,15 @@ theorem inv_on_store {n : Nat} (Am : Mat α n n) {A O : Store α} {kA : Kind} (h
     (∀ e, LU.inv Am = .error e → e ≠ .ub → invS A O = .error e) :=
   ⟨fun _ _ h => invS_is_ok hA hO h, fun _ h hne => invS_is_error hA O h hne⟩
 
+/-- in-place inverse `MatrixTools::inv(A, A)`: the constructor has copied `A` before the output is
+resized and `A` is not read afterwards, so the call is `invS A A`; the result replaces `A` -/
+theorem inv_in_place {n : Nat} (Am : Mat α n n) {A : Store α} {kA : Kind} (hA : Is A kA n n (fnOf Am))
+    {d : α} {Y : Mat α n n} (h : LU.inv Am = .ok (d, Y)) :
+    ∃ O', invS A A = .ok (d, O') ∧ Is O' kA n n (fnOf Y) := by
+  obtain ⟨O', e, hO'⟩ := invS_is_ok hA hA.1 h
+  rw [hA.2.1] at hO'
+  exact ⟨O', e, hO'⟩
+
 /-- `MatrixTools::inv` / `det` refuse a non-square store of any class -/
 theorem nonsquare_on_store {m n : Nat} (hmn : m ≠ n) (Am : Mat α m n) {A : Store α} {kA : Kind} (hA : Is A kA m n (fnOf Am))
     (O : Store α) : invS A O = .error .dimension ∧ matDetS A = .error .dimension := by
